@@ -1,0 +1,120 @@
+//go:build verif
+
+// Contracts for govc (/verif): C07, functional layer — what the snapshot encoder writes, byte string by byte string, and the
+// snapshot hash as Blake3 of exactly that byte string. Comment-only file. (Positional/structural layer of the decoder:
+// zz_contracts_c07_verif.go.)
+
+package common
+
+// ───────────── the encoder primitives: content of what they append (extends the length contracts of zz_contracts_c06_verif.go) ─────────────
+
+//@ extend func (enc *Encoder) Write
+//@   property C07
+//@   ensures [seq] seq(enc.buf) == cat(old(seq(enc.buf)), old(seq(b)))
+//@   ensures [seq0] old(len(enc.buf)) == 0 ==> seq(enc.buf) == old(seq(b))
+//@   ensures [realloc] old(len(enc.buf)) + len(b) > old(cap(enc.buf)) ==> fresh(enc.buf)
+//@   ensures [alloc] allocated(enc.buf)
+
+//@ extend func (enc *Encoder) WriteUint16
+//@   property C07
+//@   ensures [seq] seq(enc.buf) == cat(old(seq(enc.buf)), Be16Of(d))
+//@   ensures [alloc] allocated(enc.buf)
+
+//@ extend func (enc *Encoder) WriteInt
+//@   property C07
+//@   ensures [seq] 0 <= d ==> seq(enc.buf) == cat(old(seq(enc.buf)), Be16Of(d))
+//@   ensures [alloc] allocated(enc.buf)
+
+//@ extend func (enc *Encoder) WriteUint64
+//@   property C07
+//@   ensures [seq] seq(enc.buf) == cat(old(seq(enc.buf)), Be64Of(d))
+//@   ensures [alloc] allocated(enc.buf)
+
+// ───────────── what the snapshot encoder writes ─────────────
+// The package-level variable `magic` holds the two bytes 0x77 0x77: it is initialised to []byte{0x77, 0x77} (checked against the package
+// initialiser: contract of `init` below) and never assigned or written again (every other occurrence in the package is a read:
+// Write(magic), append(magic, ...) on a full slice, bytes.Equal). Assumed in the entry state of the functions of property C07.
+//@ axiom @C07 seq(magic) == lit(119, 119)
+//@ func init
+//@   property C07
+//@   ensures [magic] !old(initguard()) ==> seq(magic) == lit(119, 119) && len(magic) == 2 && cap(magic) == 2
+
+// Byte strings are `seq` codes (T-BYTES); cat is left-nested exactly as the appends happen, so no associativity is needed.
+// SnapHead: magic 0x7777, 0x00, version, the 32 bytes of the node id, the round number (8 bytes big endian).
+//@ spec SnapHead(version uint8, node crypto.Hash, round uint64) mathint = cat(cat(cat(lit(119, 119), lit(0, version)), seq(node)), Be64Of(round))
+// SnapRefs: 0x0000 for "no references", else 0x0002 and the two 32-byte round hashes.
+//@ spec SnapRefs(pre mathint, r *RoundLink) mathint = r == nil ? cat(pre, Be16Of(0)) : cat(cat(cat(pre, Be16Of(2)), seq(r.Self)), seq(r.External))
+// SnapTxs(pre, txs, n): pre followed by the first n transaction hashes, in slice order.
+//@ rec SnapTxs(pre mathint, txs []crypto.Hash, n int) mathint = n <= 0 ? pre : cat(SnapTxs(pre, txs, n - 1), seq(txs[n - 1]))
+//@ reclimit SnapTxs
+// SnapSig: 8 zero bytes for "no signature", else the mask (8 bytes big endian) and the 64 signature bytes.
+//@ spec SnapSig(pre mathint, sig *crypto.CosiSignature) mathint = sig == nil ? cat(pre, Be64Of(0)) : cat(cat(pre, Be64Of(sig.Mask)), seq(sig.Signature))
+// SnapBody: everything up to and including the timestamp -- a function of exactly the six payload fields (and of what References and
+// Transactions point to).
+//@ spec SnapBody(version uint8, node crypto.Hash, round uint64, refs *RoundLink, txs []crypto.Hash, ts uint64) mathint =
+//@     cat(SnapTxs(cat(SnapRefs(SnapHead(version, node, round), refs), Be16Of(len(txs))), txs, len(txs)), Be64Of(ts))
+// SnapPayloadBytes: the signing payload -- the body followed by the "no signature" marker.
+//@ spec SnapPayloadBytes(version uint8, node crypto.Hash, round uint64, refs *RoundLink, txs []crypto.Hash, ts uint64) mathint =
+//@     cat(SnapBody(version, node, round, refs, txs, ts), Be64Of(0))
+// SnapBytes: the full encoding without the topology suffix.
+//@ spec SnapBytes(s *Snapshot) mathint = SnapSig(SnapBody(s.Version, s.NodeId, s.RoundNumber, s.References, s.Transactions, s.Timestamp), s.Signature)
+
+// TxsCanonical: strictly increasing (what the decoder accepts). TxsOrdered: non-decreasing and adjacent elements differ -- what the
+// encoder establishes (the same thing when byte-string order is total; the encoder's check does not need totality).
+//@ spec TxsCanonical(txs []crypto.Hash) bool = forall i int :: 1 <= i && i < len(txs) ==> lexlt(txs[i-1], txs[i])
+//@ spec TxsOrdered(txs []crypto.Hash) bool = forall i int :: 1 <= i && i < len(txs) ==> !lexlt(txs[i], txs[i-1]) && txs[i-1] != txs[i]
+
+// the comparator handed to slices.SortFunc: bytes.Compare on the two hashes
+//@ func (enc *Encoder) encodeSnapshotPayload$1
+//@   property C07
+//@   modifies nothing
+//@   ensures [lt] result < 0 <==> lexlt(a, b)
+//@   ensures [gt] result > 0 <==> lexlt(b, a)
+
+// maypanic: a zero mask with a signature is rejected by panic (the decoder never produces it: ReadCosiSignature [ok]); what is
+// proved is the content on normal return. [sep]: the buffer is not the signature's own array (the encoder's buffer is always a
+// block the encoder allocated).
+//@ func (enc *Encoder) EncodeCosiSignature
+//@   property C07
+//@   requires [args] enc != nil
+//@   requires [sep] s != nil ==> arr(enc.buf) != &s.Signature
+//@   maypanic
+//@   modifies enc.buf, enc.buf[*]
+//@   ensures [ownbuf] (arr(enc.buf) == old(arr(enc.buf)) || fresh(enc.buf)) && allocated(enc.buf)
+//@   ensures [len] len(enc.buf) == old(len(enc.buf)) + (s == nil ? 8 : 72)
+//@   ensures [mask] s != nil ==> s.Mask != 0
+//@   ensures [seq] seq(enc.buf) == old(SnapSig(seq(enc.buf), s))
+
+//@ func (enc *Encoder) encodeSnapshotPayload
+//@   property C07
+//@   requires [args] enc != nil && s != nil
+//@   requires [fresh-encoder] enc.buf == nil && len(enc.buf) == 0 && cap(enc.buf) == 0 -- both callers pass NewEncoder(); a nil buffer owns no memory, so the first append allocates
+//@   maypanic
+//@   uses blockframe
+//@   modifies enc.buf, enc.buf[*], s.Transactions[..]
+//@   ensures [wf-version] s.Version >= SnapshotVersionCommonEncoding
+//@   ensures [wf-count] 1 <= len(s.Transactions) && len(s.Transactions) <= SnapshotTransactionsMaximum
+//@   ensures [wf-round0] s.RoundNumber == 0 ==> len(s.Transactions) == 1
+//@   ensures [wf-sig] (!withSig ==> s.Signature == nil) && (s.Signature != nil ==> s.Signature.Mask != 0)
+//@   ensures [sorted] TxsOrdered(s.Transactions)
+//@   ensures [noop] old(TxsCanonical(s.Transactions)) ==> forall i int :: {s.Transactions[i]} 0 <= i && i < len(s.Transactions) ==> s.Transactions[i] == old(s.Transactions[i])
+//@   ensures [fresh-buf] fresh(enc.buf)
+//@   ensures [len] len(enc.buf) == EncLenSnap(s)
+//@   ensures [bytes] seq(enc.buf) == SnapBytes(s)
+//@   hint at "enc.EncodeRoundReferences(s.References)" [head] seq(enc.buf) == SnapHead(s.Version, s.NodeId, s.RoundNumber) && fresh(enc.buf) && len(enc.buf) == 44
+//@   hint at "enc.WriteInt(len(s.Transactions))" [refs] seq(enc.buf) == SnapRefs(SnapHead(s.Version, s.NodeId, s.RoundNumber), s.References) && fresh(enc.buf)
+//@   hint at "slices.SortFunc(s.Transactions, func(a, b crypto.Hash) int {" [count] seq(enc.buf) == cat(SnapRefs(SnapHead(s.Version, s.NodeId, s.RoundNumber), s.References), Be16Of(len(s.Transactions))) && fresh(enc.buf)
+//@   hint at "slices.SortFunc(s.Transactions, func(a, b crypto.Hash) int {" [untouched] forall k int :: {s.Transactions[k]} 0 <= k && k < len(s.Transactions) ==> s.Transactions[k] == old(s.Transactions[k])
+//@   hint at "enc.WriteUint64(s.Timestamp)" [txs] seq(enc.buf) == SnapTxs(cat(SnapRefs(SnapHead(s.Version, s.NodeId, s.RoundNumber), s.References), Be16Of(len(s.Transactions))), s.Transactions, len(s.Transactions))
+//@   hint at "enc.EncodeCosiSignature(s.Signature)" [body] seq(enc.buf) == SnapBody(s.Version, s.NodeId, s.RoundNumber, s.References, s.Transactions, s.Timestamp)
+//@   loop 0 invariant [lo] 1 <= i
+//@   loop 0 invariant [distinct] forall k int :: 1 <= k && k < i ==> s.Transactions[k-1] != s.Transactions[k]
+//@   loop 1 invariant [fresh] fresh(enc.buf) && allocated(enc.buf)
+//@   loop 1 invariant [len] len(enc.buf) == 46 + (s.References == nil ? 2 : 66) + 32 * (rangeindex + 1)
+//@   loop 1 invariant [pre] loopentry(seq(enc.buf)) == cat(SnapRefs(SnapHead(s.Version, s.NodeId, s.RoundNumber), s.References), Be16Of(len(s.Transactions)))
+//@   loop 1 invariant [noop] old(TxsCanonical(s.Transactions)) ==> forall k int :: {s.Transactions[k]} 0 <= k && k < len(s.Transactions) ==> s.Transactions[k] == old(s.Transactions[k])
+//@   loop 1 invariant [kept] forall k int :: {s.Transactions[k]} 0 <= k && k < len(s.Transactions) ==> s.Transactions[k] == loopentry(s.Transactions[k])
+//@   loop 1 invariant [unfold] rangeindex + 1 < len(s.Transactions) ==> loopentry(SnapTxs(seq(enc.buf), s.Transactions, rangeindex + 2)) ==
+//@       cat(loopentry(SnapTxs(seq(enc.buf), s.Transactions, rangeindex + 1)), loopentry(seq(s.Transactions[rangeindex + 1])))
+//@   loop 1 invariant [bytes] seq(enc.buf) == loopentry(SnapTxs(seq(enc.buf), s.Transactions, rangeindex + 1))
+//@   loop 1 invariant [framed] SnapTxs(loopentry(seq(enc.buf)), s.Transactions, len(s.Transactions)) == loopentry(SnapTxs(seq(enc.buf), s.Transactions, len(s.Transactions)))
